@@ -153,9 +153,16 @@ class Repository(object):
             raise PushFailedException(name) from err
 
     def push_all(self, prune=False):
+        # Only push (and prune) the branches Bert-E is responsible for:
+        # a plain `--all --prune` would delete or rewind branches that
+        # somebody pushed since the repository was cloned.
+        refspecs = ' '.join(
+            "'refs/heads/{0}/*:refs/heads/{0}/*'".format(prefix)
+            for prefix in ('development', 'stabilization', 'hotfix',
+                           'w', 'q'))
         prune = '--prune' if prune else ''
         try:
-            self.cmd('git push --all --atomic %s' % prune)
+            self.cmd('git push --atomic %s origin %s' % (prune, refspecs))
         except CommandError as err:
             raise PushFailedException(err) from err
 
